@@ -36,6 +36,7 @@ type RecRaster struct {
 	px, py, fx, fy float32
 	Paints         []image.Image // src of every Draw
 	Rects          []image.Rectangle
+	SPs            []image.Point // source point of every Draw
 }
 
 func (r *RecRaster) add(s string) { r.Log = append(r.Log, s); r.NCalls++ }
@@ -77,6 +78,7 @@ func (r *RecRaster) ClosePath() {
 func (r *RecRaster) Draw(rect image.Rectangle, src image.Image, sp image.Point) {
 	r.Paints = append(r.Paints, src)
 	r.Rects = append(r.Rects, rect)
+	r.SPs = append(r.SPs, sp)
 	s := fmt.Sprintf("D %d %d %d %d %s", rect.Min.X, rect.Min.Y, rect.Max.X, rect.Max.Y, ShowPaint(src, r.Samples))
 	if sp != (image.Point{}) {
 		s += fmt.Sprintf(" sp=%d,%d", sp.X, sp.Y)
